@@ -118,7 +118,7 @@ Lemma spec_contrib_unset f vals : is_unset (to_field f) (lookup vals (sf_name f)
 Proof.
   unfold is_unset, spec_contrib. change (f_ty (to_field f)) with (sf_ty f).
   destruct (sf_argstr f); [reflexivity|]. destruct (lookup vals (sf_name f)) as [| | |[|a l]]; try discriminate; [reflexivity|].
-  destruct (sf_ty f); try discriminate. reflexivity.
+  destruct (optional_type (sf_ty f)); try discriminate. reflexivity.
 Qed.
 
 Lemma map_result_map {A B C} (k : A -> B) (f : B -> result C) l :
